@@ -40,6 +40,10 @@ CHECKS = {
             "total enumeration of set(name, text) over every public parameter (= key of the serde-JSON form) x every value text of its type (all 256 integers, float list, source names, 15 kinds x lengths, booleans, garbage) and every foreign name, on static and dynamic configs; depth-bounded exploration of every default indicator comparing result shape and static-vs-dyn results on every stream",
             "Generic, no per-indicator code: the parameter list is derived from the config's own serialized form, so a setter wired to the wrong field, a missing setter, a setter that mutates on error, a wrong size() or a diverging Dyn impl is seen for every indicator and every parameter.",
             "Trusted: serde-JSON key set == public parameters (checked by reading the structs); example::Example (private fields, no serde on its instance) gets the shape check only."),
+    "C12": ("DESIGN.md §6 C12",
+            "exhaustive exploration of every indicator (default, small-period, period-3/4/5 and every MA kind for the monitored ones) over a rounding-active and a dyadic candle alphabet plus trend symbols, with the regime volatile -> exactly flat for 2*period+2 steps (macro-step) -> volatile built into the action alphabet; documented ranges/orderings/containments and finiteness monitored on every transition; dispersion methods explored the same way",
+            "The range escapes the property worries about need a specific history shape (movement with rounding-active values, then an exactly flat stretch); that shape is part of the enumerated action alphabet, so every short movement prefix is followed by the flat regime and every continuation.",
+            "Trusted: the monitors are reference-free statements of the documented ranges with a 1e-9 tolerance (rounding is <= 1e-13 at these magnitudes). Formula-undefined steps (zero total volume, zero variance) are exempt and counted."),
     "C13": ("DESIGN.md §6 C13",
             "exploration of every method (small parameter sets, all rotation phases, warm-up, windowless, even/odd lengths) and every indicator (default, small-period and MA-kind configurations): at EVERY explored state the instance is serialized and restored, and original and restored instance are explored together over all continuations of depth 3 with bitwise comparison; adversarial SMM/Window forms; config round trips",
             "A snapshot point is a state of the explored graph, so snapshot-at-every-state followed by product exploration covers every (snapshot point, short continuation) pair within the bounds; hand-written Deserialize impls (Window, SMM) are additionally fed malformed forms.",
